@@ -63,7 +63,8 @@ class G:
         fs = [self.sc_closures, self.sc_generator, self.sc_promise, self.sc_class, self.sc_mapset, self.sc_bound_args,
               self.sc_template, self.sc_array_cb, self.sc_strings, self.sc_json, self.sc_proxy, self.sc_destructure,
               self.sc_typed, self.sc_errors, self.sc_accessors, self.sc_weak, self.sc_eval, self.sc_async_gen,
-              self.sc_regexp, self.sc_with, self.sc_spread_call, self.sc_sort, self.sc_symbol_keys, self.sc_label_loops]
+              self.sc_regexp, self.sc_with, self.sc_spread_call, self.sc_sort, self.sc_symbol_keys, self.sc_label_loops,
+              self.sc_weak_nested, self.sc_weak_nested]
         f = self.r.choice(fs)
         self.use(f.__name__[3:])
         return "{ " + f(depth) + " }"
@@ -258,6 +259,33 @@ class G:
                 "try { if (v[0] === 2) continue outer; if (k === \"c\") break outer; acc.push(() => [cap.k, i, v[1]]); } finally { acc.push(() => \"f\" + k + i); %(g1)s } } } "
                 "print(\"loops\", acc.map(f => show(f())).join(\" \")); %(inner)s let sw = []; for (let i = 0; i < 4; i++) { switch (i) { case 1: { let o = {one: i}; sw.push(() => o); } case 2: sw.push(() => i); break; default: sw.push(() => ({d: i})); } } print(\"switch\", sw.map(f => show(f())).join());"
                 ) % dict(g=self.maybe_gc(0.1), g1=self.maybe_gc(0.1), inner=self.inner(d))
+
+    def sc_weak_nested(self, d):
+        """weak cells that are themselves reachable only through the *value* of another weak-map entry (allocated before or
+        after the outer entry, one or two levels deep); every target and key stays strongly held, so all must stay live"""
+        t = self.id("")
+        order = self.r.choice(["inner-first", "outer-first"])
+        lvl2 = self.r.random() < 0.5
+        mk_inner = ("let ref = new WeakRef(tgt%(t)s); let innerMap = new WeakMap(); innerMap.set(ikey%(t)s, {iv: [1], ref2: new WeakRef(ikey%(t)s)}); "
+                    "let innerSet = new WeakSet([tgt%(t)s]); ") % dict(t=t)
+        if order == "inner-first":
+            body = mk_inner + "%(g)s reg%(t)s.set(okey%(t)s, {ref, innerMap, innerSet});"
+        else:
+            body = "let holder = {}; reg%(t)s.set(okey%(t)s, holder); %(g)s " + mk_inner + "holder.ref = ref; holder.innerMap = innerMap; holder.innerSet = innerSet;"
+        if lvl2:
+            body += " let deep = new WeakMap(); deep.set(okey%(t)s, reg%(t)s.get(okey%(t)s)); reg%(t)s.set(tgt%(t)s, {deep});"
+        body = body % dict(t=t, g=self.maybe_gc(0.6))
+        probe = ("let h = reg%(t)s.get(okey%(t)s); print(\"W:S%(t)s_nref:\" + (h && h.ref.deref() === tgt%(t)s ? \"live\" : \"dead\")); "
+                 "print(\"W:S%(t)s_nmap:\" + (h && h.innerMap.has(ikey%(t)s) && h.innerMap.get(ikey%(t)s).ref2.deref() === ikey%(t)s ? \"live\" : \"dead\")); "
+                 "print(\"W:S%(t)s_nset:\" + (h && h.innerSet.has(tgt%(t)s) ? \"live\" : \"dead\")); ") % dict(t=t)
+        if lvl2:
+            probe += ("let dd = reg%(t)s.get(tgt%(t)s); print(\"W:S%(t)s_deep:\" + (dd && dd.deep.get(okey%(t)s) === h ? \"live\" : \"dead\")); ") % dict(t=t)
+        return ("let reg%(t)s = new WeakMap(); let tgt%(t)s = {name: \"target\"}, okey%(t)s = {name: \"okey\"}, ikey%(t)s = {name: \"ikey\"}; "
+                "(function () { %(body)s })(); %(g1)s let junk = []; for (let i = 0; i < %(n)d; i++) junk.push({i, a: [i]}); junk = null; %(g2)s "
+                "%(probe)s Promise.resolve().then(() => { %(g3)s %(probe2)s }); %(inner)s"
+                ) % dict(t=t, body=body, g1=self.maybe_gc(0.8), g2=self.maybe_gc(0.8), g3=self.maybe_gc(0.8), n=self.r.randrange(1, 60),
+                         probe=probe, probe2=probe.replace("let h =", "let h2 =").replace("h &&", "h2 &&").replace("=== h ", "=== h2 ").replace("let dd", "let dd2").replace("dd &&", "dd2 &&").replace("dd.deep", "dd2.deep"),
+                         inner=self.inner(d))
 
 
 PRELUDE = (
